@@ -10,7 +10,7 @@ TPE = 'cedar-policy-core/src/tpe.rs'
 RESP = 'cedar-policy-core/src/tpe/response.rs'
 ASSUMPTIONS = [
     'Validation, typechecking (C03) and the conversion of a typed expression to a residual are opaque: carried as uninterpreted functions; start_residual says when a policy has a residual to start from.',
-    'tpe::Evaluator::interpret: contract proved in unit tpe_eval (re-checked here). Response::new: proved in unit tpe_response; PolicySet::{policies, get}: unit policyset.',
+    'tpe::Evaluator::interpret: contract proved in unit tpe_eval (same extracted text and contract; assumed here, not re-checked). Response::new: proved in unit tpe_response; PolicySet::{policies, get}: unit policyset.',
 ]
 _s = importlib.util.spec_from_file_location('vx_tpe_eval_for_auth', os.path.join(os.path.dirname(os.path.abspath(__file__)), '..', 'tpe_eval', 'unit.py'))
 _m = importlib.util.module_from_spec(_s); _s.loader.exec_module(_m)
@@ -23,6 +23,10 @@ def _rebased(items):
                 pass
             else:
                 it.file = '../tpe_eval/' + it.file
+        if getattr(it, 'kind', None) == 'fn' and it.name == 'Evaluator::interpret':
+            # proved in unit tpe_eval (same extracted text, same contract); here only its contract is used
+            it.attrs = list(it.attrs) + ['verifier::external_body']
+            it.hints = []; it.proof_start = None; it.assumed_here = True
         out.append(it)
     return out
 ITEMS = _rebased(_m.ITEMS) + [
